@@ -136,10 +136,8 @@ func ruleForwardOnce(c *Ctx, pl *pipeline, rule string, read *ssa.Call, nVal, er
 		}
 		taken := b == a.Succs[0]
 		// n <= 0: nothing to forward
-		if bo.X == nVal {
-			if k, ok := constInt(bo.Y); ok && k == 0 && ((bo.Op == token.GTR && !taken) || (bo.Op == token.LEQ && taken) || (bo.Op == token.EQL && taken)) {
-				return false
-			}
+		if factNonPositive(bo, taken, nVal) {
+			return false
 		}
 		// err != nil: with a short destination bufio returns no data together with an error
 		if oneByte && (bo.X == errVal || bo.Y == errVal) && (isNilConst(bo.X) || isNilConst(bo.Y)) {
@@ -340,7 +338,7 @@ func ruleTransientGaps(c *Ctx, fn *ssa.Function, nVal, errVal ssa.Value, rule1, 
 				// interruption would be measured from the first one and end the stream at once
 				afterSuccess := false
 				for _, f := range dominatingFacts(pred) {
-					if bo, ok := f.Cond.(*ssa.BinOp); ok && bo.X == nVal && bo.Op == token.GTR && f.Val {
+					if factPositive(f.Cond, f.Val, nVal) {
 						afterSuccess = true
 					}
 				}
@@ -354,7 +352,7 @@ func ruleTransientGaps(c *Ctx, fn *ssa.Function, nVal, errVal ssa.Value, rule1, 
 				// cleared only on the success path (dominated by n > 0)
 				okc := false
 				for _, f := range dominatingFacts(pred) {
-					if bo, ok := f.Cond.(*ssa.BinOp); ok && bo.X == nVal && bo.Op == token.GTR && f.Val {
+					if factPositive(f.Cond, f.Val, nVal) {
 						okc = true
 					}
 				}
